@@ -1163,6 +1163,9 @@ class SSHKey:
 
             return data
         elif format_name == 'openssh':
+            if self._comment and b'\0' in self._comment:
+                raise KeyExportError('Comment may not contain NUL bytes')
+
             check = os.urandom(4)
             nkeys = 1
 
